@@ -40,6 +40,24 @@ for e in edges:
                      ['for', 'i', 'in'] + E + ['..'] + lit(e - 1) + ['return', 'i'], ['some', 'i', 'in'] + E + ['..'] + E + ['satisfies', 'i', '>', '0'],
                      E + ['+', '1'], E + ['*'] + E, ['-', '('] + E + [')'], E + ['**', '2'], ['2', '**'] + E, ['1', 'in', '['] + E + ['..'] + lit(e + 1) + [']'],
                      ['@', '"P1D"', '*'] + E, ['@', '"P1M"', '*'] + E, ['@', '"2021-01-01"', '+', '@', '"P1D"', '*'] + E]
+for n in nul_strings:
+    edge_special += [['number', '('] + n + [',', '","', ',', '"."', ')'], ['number', '('] + n + [',', 'null', ',', 'null', ')'], ['number', '(', '"1"', ','] + n + [',', '"."', ')'],
+                     ['matches', '('] + n + [','] + n + [')'], ['replace', '('] + n + [','] + n + [','] + n + [')'], ['split', '('] + n + [','] + n + [')'],
+                     n + ['+'] + n, ['{'] + n + [':', '1', '}'], ['@'] + n, n + ['<'] + n, ['string length', '('] + n + [')'], ['contains', '('] + n + [','] + n + [')']]
+# many DIFFERENT texts of one kind in one evaluation (caches, pools and rings keyed by a text fill up and turn over)
+def many(body):
+    return ['count', '(', 'for', 'i', 'in', '1', '..', '300', 'return'] + body + [')']
+edge_special += [many(['matches', '(', '"aaaaa"', ',', '"^a{"', '+', 'string', '(', 'i', ')', '+', '"}$"', ')']),
+                 many(['replace', '(', '"abcabc"', ',', '"b{1,"', '+', 'string', '(', 'i', ')', '+', '"}"', ',', '"x"', ')']),
+                 many(['split', '(', '"a1b2c"', ',', '"[0-9]{1,"', '+', 'string', '(', 'i', ')', '+', '"}"', ')']),
+                 many(['number', '(', 'string', '(', 'i', ')', '+', '".5"', ',', '","', ',', '"."', ')']),
+                 many(['duration', '(', '"P"', '+', 'string', '(', 'i', ')', '+', '"D"', ')']),
+                 many(['date', '(', '2000', '+', 'i', ',', '1', ',', '1', ')']),
+                 many(['date', '(', 'string', '(', '2000', '+', 'i', ')', '+', '"-01-01"', ')']),
+                 many(['time', '(', '"10:00:00+00:"', '+', 'string', '(', '10', '+', 'i', '/', '10', ')', ')']),
+                 many(['string', '(', 'i', '/', '7', ')']),
+                 many(['{', 'a', ':', 'i', '}', '.', 'a']),
+                 many(['(', 'function', '(', 'u', ')', 'u', '+', 'i', ')', '(', '1', ')'])]
 for d in offsets:
     T = ['time', '(', '10', ',', '0', ',', '0', ',', 'duration', '(', '"%s"' % d, ')', ')']
     edge_special += [T, T + ['='] + T, T + ['<'] + T, T + ['-'] + T, ['string', '('] + T + [')'], T + ['.', 'time offset'], T + ['.', 'timezone'],
@@ -195,4 +213,4 @@ Next == FALSE /\\ c' = c
 =============================================================================
 ''')
 import sys
-open(sys.argv[1] if len(sys.argv) > 1 else '/verif/spec/Gen_C05.tla', 'w').write(''.join(out))
+open(sys.argv[1] if len(sys.argv) > 1 else __import__('os').path.join(__import__('os').path.dirname(__import__('os').path.abspath(__file__)), '..', 'spec', 'Gen_C05.tla'), 'w').write(''.join(out))
